@@ -94,6 +94,7 @@ class ScriptEnv:
     self.fail_stop = None
     self.fail_factory = None
     self.fail_once = False    # the scripted failure happens at the first invocation only (a transient fault)
+    self.fail_bare = False    # the exception carries no message at all (a failed assert, a bare raise NotImplementedError)
     self.stop_answer = False
     self.stop_extra_ids = ()  # decisions for further trial ids
     self.stop_omit_requested = False
@@ -137,7 +138,7 @@ class ScriptedPolicy(pythia.Policy):
         e.entered.set()
       gate.wait(timeout=20)
     if e.fail_suggest:
-      exc = _EXC[e.fail_suggest]('scripted failure in suggest')
+      exc = _EXC[e.fail_suggest]() if e.fail_bare else _EXC[e.fail_suggest]('scripted failure in suggest')
       if e.fail_once:
         e.fail_suggest = None
       raise exc
@@ -153,7 +154,7 @@ class ScriptedPolicy(pythia.Policy):
     e = self._env
     e.stop_calls += 1
     if e.fail_stop:
-      exc = _EXC[e.fail_stop]('scripted failure in early_stop')
+      exc = _EXC[e.fail_stop]() if e.fail_bare else _EXC[e.fail_stop]('scripted failure in early_stop')
       if e.fail_once:
         e.fail_stop = None
       raise exc
@@ -174,7 +175,7 @@ class ScriptedFactory(pythia.PolicyFactory):
   def __call__(self, problem_statement, algorithm, policy_supporter, study_name):
     self.env.factory_calls += 1
     if self.env.fail_factory:
-      raise _EXC[self.env.fail_factory]('scripted failure in policy factory')
+      raise (_EXC[self.env.fail_factory]() if self.env.fail_bare else _EXC[self.env.fail_factory]('scripted failure in policy factory'))
     if self.fallback is not None and algorithm not in ('SCRIPTED', 'RANDOM_SEARCH'):
       return self.fallback(problem_statement, algorithm, policy_supporter, study_name)
     return ScriptedPolicy(self.env, policy_supporter)
